@@ -293,7 +293,13 @@ func checkMain(args []string) {
 	}
 	rp := newReplayer(dir)
 	defer rp.cleanup()
-	replayDir := filepath.Join(verifRoot, "replays", id)
+	// a scratch evaluation (SYMGO_REPO names another tree than /repo) must not
+	// touch the evidence and replays of the real tree
+	outRoot := verifRoot
+	if dir != "/repo" {
+		outRoot = filepath.Join(verifRoot, "replays", "_scratch", filepath.Base(dir))
+	}
+	replayDir := filepath.Join(outRoot, "replays", id)
 	os.RemoveAll(replayDir)
 	os.MkdirAll(replayDir, 0o755)
 
@@ -615,9 +621,9 @@ func checkMain(args []string) {
 		"wall_s":      round1(time.Since(t0).Seconds()),
 		"violations":  violations,
 	}
-	os.MkdirAll(filepath.Join(verifRoot, "evidence"), 0o755)
+	os.MkdirAll(filepath.Join(outRoot, "evidence"), 0o755)
 	eb, _ := json.MarshalIndent(ev, "", " ")
-	if err := os.WriteFile(filepath.Join(verifRoot, "evidence", id+".json"), eb, 0o644); err != nil {
+	if err := os.WriteFile(filepath.Join(outRoot, "evidence", id+".json"), eb, 0o644); err != nil {
 		fatal("%v", err)
 	}
 	switch exit {
